@@ -21,9 +21,12 @@ var table = map[string]entry{
 	"C03": {"exploration", checks.C03},
 	"C04": {"exploration", checks.C04},
 	"C05": {"exploration", checks.C05},
+	"C06": {"exploration", checks.C06},
 	"C12": {"exploration", checks.C12},
 	"C13": {"exploration", checks.C13},
 	"C14": {"exploration", checks.C14},
+	"C16": {"exploration", checks.C16},
+	"C17": {"exploration", checks.C17},
 }
 
 func main() {
